@@ -52,6 +52,9 @@ Monitors(e) ==
   /\ Report("C16.BalancesBackSupply", BalancesBackSupply' /\ \A r \in Recs(e.obs) : r.mod = 0)
   /\ Report("C16.NamespaceOK", NamespaceOK' /\ e.obs.nden = Cardinality(DOMAIN denoms'))
   /\ Report("C16.NonFactoryUntouched", NonFactoryUntouched')
+  \* no denomination other than the tracked literal names (factory/<creator>/<sub-denom as given>, the native and
+  \* the foreign ones) exists in the module's creator index, its authority records, bank metadata or bank supply
+  /\ Report("C16.NoForeignDenoms", e.obs.x = <<0, 0, 0, 0>>)
 
 StepMonitors(e) ==
   /\ Report("C16.OnlyAdminActs", OnlyAdminActs)
@@ -78,7 +81,8 @@ TrInit == IsEvent("Init") /\ LET e == Trace[l] IN
   /\ res' = "init" /\ last' = Rec("Init", 0, 0, 0, 0, 0, 0) /\ nops' = 0
   /\ Monitors(e)
   \* the genesis the driver built is the initial state of the model
-  /\ Conf("Init", /\ denoms' = [d \in {} |-> 0] /\ bmeta' = [d \in {Native} |-> 0]
+  /\ Conf("Init", /\ denoms' = [d \in {} |-> 0]
+                  /\ bmeta' = [d \in (IF e.args.nmeta = 1 THEN {Native} ELSE {}) |-> 0]
                   /\ supply' = Zero /\ bal' = [d \in AllDenoms |-> [a \in Accounts |-> 0]]
                   /\ funds' = e.args.funds /\ e.feedenom = "ugrain")
 
@@ -99,7 +103,7 @@ TrAct == ActEvent(FALSE) /\ LET e == Trace[l]  a == e.args  ok == e.res = "ok"  
 \* a block that could not be finalised / committed at all
 TrBlockFail == ActEvent(TRUE) /\ UNCHANGED vars /\ Report("C16.BlockFailure", FALSE)
 
-TraceInit == Init /\ l = 1
+TraceInit == InitWith(1) /\ l = 1
 TraceNext == TrInit \/ TrAct \/ TrBlockFail
 TraceAccepted == TLCGet("stats").diameter - 1 = Len(Trace)
 =============================================================================
